@@ -36,7 +36,7 @@ func cfail(format string, a ...any) {
 }
 
 var specialFuncs = map[string]bool{"old": true, "implies": true, "forall": true, "exists": true, "elems": true, "fresh": true,
-	"sliceIs": true, "ite": true, "unchanged": true, "sameArray": true, "mapof": true, "allocated": true, "iff": true, "has": true, "clock": true, "same": true}
+	"sliceIs": true, "ite": true, "unchanged": true, "sameArray": true, "mapof": true, "allocated": true, "iff": true, "has": true, "clock": true, "same": true, "locked": true, "typed": true}
 
 // freeIdents: identifiers in e that may refer to contract-level names.
 func freeIdents(e ast.Expr) map[string]bool {
@@ -994,6 +994,19 @@ func (env *Env) evalSpecial(name string, e *ast.CallExpr) *Term {
 	case "clock":
 		// clock(): the latest instant time.Now() has returned (ghost; instants never decrease)
 		return x.clockOf(env.st)
+	case "typed":
+		// typed(p): p is nil or addresses a location of p's static pointee type (the typing fact the engine assumes
+		// for every pointer it loads; spelled out for pointers under a quantifier)
+		v := env.eval(e.Args[0])
+		if pt, ok := types.Unalias(env.typeOf(e.Args[0])).Underlying().(*types.Pointer); ok {
+			if f := x.ptrTagFormula(v, pt.Elem()); f != nil {
+				return f
+			}
+		}
+		return c.True()
+	case "locked":
+		// locked(&mu): the sync.Mutex / sync.RWMutex at that address is held (set by Lock, cleared by Unlock)
+		return c.Select(x.memOf(env.st, SBool), env.eval(e.Args[0]))
 	case "sameArray":
 		a, b := env.eval(e.Args[0]), env.eval(e.Args[1])
 		return c.Eq(c.SlPtr(a), c.SlPtr(b))
